@@ -622,7 +622,7 @@ fn checked_err_to_verdict(e: &CheckedPathError) -> spec::Verdict {
 pub fn c04(ctx: &mut Ctx, tier: &str, seed: u64) {
     for win in [false, true] {
         let e = gen::e(win);
-        let bases: Vec<Vec<u8>> = gen::bases(win, tier, seed).into_iter().filter(|b| well_formed(win, b)).collect();
+        let bases: Vec<Vec<u8>> = gen::bases(win, tier, seed).into_iter().filter(|b| well_formed_wide(win, b)).collect();
         let mut args = dom_args(win, tier, seed);
         // all byte strings: also short strings over hostile bytes
         args.extend(strings_b(if win { b"\\.:a|" } else { b"/.\0a" }, 3));
